@@ -38,7 +38,8 @@ RULE = ("K = 2..4 users with unequal Nr/Nt/Ns, raw channel matrix supplied by "
         "(it stays in force otherwise). "
         "In a third of the solver cases the object held another solution (other stream counts and power) before. "
         "In half of the solver cases the power is changed through the P setter (scalar / None / vector) after the SINRs were read, and everything is read again. "
-        "The capacity function also receives inf and 0 SINRs. ")
+        "The capacity function also receives inf and 0 SINRs. "
+        "In 40 % of the solver cases the path loss of the channel object changes between two SINR readings of the configured solver. ")
 ASSUMPTIONS = ["relative tolerance 256 eps n (1 + SINR): the library forms the "
                "denominator by subtracting the own-stream covariance",
                "K >= 2 with generic precoders, so denominators are positive"]
@@ -493,6 +494,33 @@ def case_solver(ctx, rng, idx):
                                           for g in want2))
                         ctx.within("sum-capacity", abs(cap2 - wcap2), 1e-9 * (1 + abs(wcap2)),
                                    "solver:after-P-setter", d2(got=cap2, want=wcap2))
+    # the channel object changes under the live solver (new large-scale fading for
+    # the next drop) and the SINRs are read again without touching the filters
+    if rng.random() < 0.4:
+        pl3 = None if (pl is not None and rng.random() < 0.3) else \
+            10.0 ** rng.uniform(-2, 0, size=(K, K))
+        okc, _ = ctx.call("solver-sinr", mu.set_pathloss, None if pl3 is None else pl3.copy(),
+                          cls="set_pathloss-raised", detail=tag)
+        if okc:
+            Heff3 = raw.copy()
+            if pl3 is not None:
+                for k in range(K):
+                    for j in range(K):
+                        Heff3[cr[k]:cr[k + 1], ct[j]:ct[j + 1]] *= math.sqrt(pl3[k, j])
+            Hkj3 = blocks(Heff3, Nr, Nt)
+            try:
+                F3 = [np.asarray(f) for f in solver.full_F]
+                U3 = [herm(np.asarray(w)) for w in solver.full_W_H]
+            except Exception as e:      # noqa: BLE001
+                ctx.ev("solver-sinr", False, cls="getter-raised-after-channel-change",
+                       detail={**tag, "exc": repr(e)})
+                F3 = None
+            if F3 is not None:
+                want3 = oracle_sinr(Hkj3, None, F3, U3, noise, 0.0)
+                okc, got3 = ctx.call("solver-sinr", solver.calc_SINR, detail=tag)
+                if okc:
+                    cmp_sinr(ctx, "solver-sinr", "after-channel-change-under-the-solver", got3, want3,
+                             nterms, lambda: {**tag, "raw": raw, "new_pathloss": pl3})
     ctx.sig("solver", K, tuple(Nr), tuple(Nt), tuple(Ns), route, noise is None,
             pl is not None)
     ctx.sample("solver", tag)
